@@ -88,7 +88,7 @@ def parse_spelled(text):
 
 class CompGen:
     def __init__(self, rng, name="C", size=8, port_lens=(4, 6), nports=(1, 1), zero_prob=0.12, max_depth=4,
-                 satisfiable=True, allow_kinetic=True, fancy_names=True, wild_prob=0.25):
+                 satisfiable=True, allow_kinetic=True, fancy_names=True, wild_prob=0.25, cover_strands=False):
         self.rng = rng
         self.name = name
         self.size = size
@@ -100,6 +100,7 @@ class CompGen:
         self.allow_kinetic = allow_kinetic
         self.fancy = fancy_names
         self.wild_prob = wild_prob
+        self.cover_strands = cover_strands
         self.used = set()
         self.seqs = {}      # name -> dict(len, sup(bool), items(list of (name, rev) for sup), nucs(list of (dom, idx, comp)), segs)
         self.order = []
@@ -121,7 +122,7 @@ class CompGen:
     def rc(nucs):
         return [(d, i, not c) for d, i, c in reversed(nucs)]
 
-    def add_base(self, name=None, length=None):
+    def add_base(self, name=None, length=None, plain=False):
         rng = self.rng
         name = name or self.nm(rng.choice(["a", "b", "t", "d", "toe", "s"]))
         if length is None:
@@ -131,7 +132,7 @@ class CompGen:
         left = length
         while True:
             m = left if rng.random() < 0.5 else rng.randint(0, left)
-            parts.append([m, "N" if rng.random() < 0.6 else rng.choice(CODES)])
+            parts.append([m, "N" if (plain or rng.random() < 0.6) else rng.choice(CODES)])
             left -= m
             if left == 0 and rng.random() < 0.7:
                 break
@@ -274,7 +275,7 @@ class CompGen:
             rng.shuffle(cands)
             taken = []
             for (i0, j1, t) in cands:
-                if rng.random() < 0.3:
+                if rng.random() > getattr(self, "_pair_prob", 0.7):
                     continue
                 ok = True
                 for (a0, b1, u) in taken:
@@ -308,13 +309,42 @@ class CompGen:
             out.append(sym[pos:pos + L]); pos += L
         return out
 
-    def add_struct(self, name=None):
+    def add_duplex(self):
+        """two strands containing x and x* (or a hairpin x .. x*) and a structure pairing them"""
+        rng = self.rng
+        cands = [x for x in self.seqs if self.seqs[x]["len"] > 0]
+        if not cands:
+            return
+        x = rng.choice(cands)
+        def strand_with(items):
+            name = self.nm(rng.choice(["D", "Top", "Bot", "Hp"]))
+            nucs, segs = [], []
+            for it in items:
+                v = self.view(it["name"], it["star"])
+                nucs += v; segs.append(v)
+            self.stmts.append({"k": "strand", "dummy": False, "name": name, "items": items, "len": None})
+            self.strands[name] = {"len": len(nucs), "nucs": nucs, "segs": segs, "dummy": False}
+            return name
+        others = [y for y in self.seqs if self.seqs[y]["len"] > 0]
+        pad = lambda: [{"t": "ref", "name": rng.choice(others), "star": rng.random() < 0.3}] if rng.random() < 0.5 else []
+        if rng.random() < 0.3:
+            loop = self.add_base(length=rng.randint(3, 5))
+            s1 = strand_with(pad() + [{"t": "ref", "name": x, "star": False}, {"t": "ref", "name": loop, "star": False},
+                                      {"t": "ref", "name": x, "star": True}] + pad())
+            self.add_struct(snames=[s1], pair_prob=1.0)
+        else:
+            s1 = strand_with(pad() + [{"t": "ref", "name": x, "star": False}] + pad())
+            s2 = strand_with(pad() + [{"t": "ref", "name": x, "star": True}] + pad())
+            self.add_struct(snames=[s1, s2], pair_prob=1.0)
+
+    def add_struct(self, name=None, snames=None, pair_prob=0.7):
         rng = self.rng
         if not self.strands:
             return None
         name = name or self.nm(rng.choice(["G", "Cx", "St", "Waste", "Sig"]))
         k = rng.choice([1, 1, 2, 2, 3])
-        snames = [rng.choice(list(self.strands)) for _ in range(k)]
+        self._pair_prob = pair_prob
+        snames = snames or [rng.choice(list(self.strands)) for _ in range(k)]
         per = self.pair_structure(snames)
         dp = "+".join("".join(p) for p in per)
         # choose a notation
@@ -392,12 +422,13 @@ class CompGen:
         ports = []
         for k in range(n_in + n_out):
             L = rng.choice(self.port_lens)
+            plain = rng.random() < 0.8      # ports with plain N templates keep most systems satisfiable
             if rng.random() < 0.5:
-                p = self.add_base(length=L)
+                p = self.add_base(length=L, plain=plain)
             else:
                 # a super-sequence port made of fresh pieces with total length L
                 a = rng.randint(0, L)
-                x = self.add_base(length=a); y = self.add_base(length=L - a)
+                x = self.add_base(length=a, plain=plain); y = self.add_base(length=L - a, plain=plain)
                 p = self.nm("p")
                 rx, ry = rng.random() < 0.3, rng.random() < 0.3
                 self.stmts.append({"k": "seq", "name": p, "items": [{"t": "ref", "name": x, "star": rx}, {"t": "ref", "name": y, "star": ry}],
@@ -419,6 +450,13 @@ class CompGen:
             self.strands[name] = {"len": len(v), "nucs": v, "segs": [v], "dummy": False}
         for _ in range(rng.randint(1, max(1, self.size // 3))):
             self.add_struct()
+        for _ in range(rng.choice([0, 1, 1, 2])):
+            self.add_duplex()
+        if getattr(self, "cover_strands", False):
+            used = {s for st_ in self.structs.values() for s in st_["strands"]}
+            for sname in list(self.strands):
+                if sname not in used:
+                    self.add_struct(snames=[sname], pair_prob=0.5)
         if self.allow_kinetic and rng.random() < 0.3:
             self.add_kinetic()
         # a few late definitions after structures (order of statements is free)
